@@ -41,9 +41,11 @@ CLAIMED = {
              "in registration order; built-in rules, other languages and sessions untouched; add fails exactly for an unknown "
              "language, delete exactly for an unknown language/name; a declining rule anywhere in the list leaves the rewrite "
              "loop identical to the loop without it (all lines, all fuel) and matching never panics on a stored pattern; "
-             "duplicate unit families / item indices are refused with no state change. Behavioural equivalence with a fresh "
-             "calculator replaying the survivors, rule effect with named fields and the unit chain are decided by the per-run "
-             "differential check (paired histories) plus an independent oracle; a computed end-to-end example is a theorem.",
+             "duplicate unit families / item indices are refused with no state change. Central clause as a theorem: after ANY "
+             "registration/deletion history from a calculator without custom rules the WHOLE state equals that of the calculator "
+             "on which only the survivors were registered in order, so every later operation is observed identically (uses: the "
+             "lexer never reads the rule table, proved for all lines). Rule effect with named fields and the unit chain are decided "
+             "by the per-run differential check (paired histories) plus an independent oracle; computed end-to-end examples.",
         design="DESIGN.md section 7 C18", technique="Coq proof by induction over registration histories (refinement to a list spec) + model/implementation correspondence on paired histories"),
 
     "C03": dict(
@@ -167,6 +169,29 @@ CLAIMED = {
              "evaluating each line and its rewritings (blanks, comments, case per keyword class). One listed known finding "
              "(sign read into a literal changes which rule matches).",
         design="DESIGN.md section 7 C16", technique="Coq proof (structural invariance of the post-lexer pipeline, case-invariance lemmas, computed families) + model/implementation correspondence on original/rewritten line pairs"),
+
+    "C19": dict(
+        text="Partial. Theorems: for ALL lines, configurations and number algebras the pipeline depends on the language tag only "
+             "through six per-language table lookups (two tags with equal table entries evaluate identically; unknown tags "
+             "behave alike); finite tables over the regenerated data: every constant keyword, month (all spellings) and operator "
+             "word of tr has an en counterpart, the 13 tr rules are en rules with the same field structure up to keyword words, "
+             "the word-free patterns are identical and, for all operand values, the en and tr rule loops rewrite the word-free "
+             "shapes identically; dates and durations print in each language's own words. Value equality for EVERY word-by-word "
+             "translated line is not proved; it is decided per run by the differential check executing (en line, tr line) pairs "
+             "and word-free lines under both languages. One listed known finding (upper-case Turkish words with I/İ).",
+        design="DESIGN.md section 7 C19", technique="Coq proof (parametricity in the language tag, finite tables over both languages' regenerated data) + model/implementation correspondence on translated line pairs"),
+
+    "C15": dict(
+        text="Partial. The full statement is FALSE in the faithful model (C15_full_partial) and ten mechanisms by which a "
+             "printed form does not re-read are refuted-witness theorems and listed known findings (negative zero, separators "
+             "outside [.,], money symbols that are no reader name or name another currency, zero duration, 12 months, tr time+zone, "
+             "date-time print, raw unix timestamp, hex/currency). Proved: finite tables over the regenerated data that every printed "
+             "duration word, unit word, month word (en and tr) and all 191 zone names re-read as themselves, the exact partition of "
+             "the 161 currencies into re-readable / not; unbounded: based integers (C13 composition), durations with < 12 months "
+             "re-read part by part and recombine to |secs| for ALL second counts, the reader normalises the printed number for ALL "
+             "digit strings and separator pairs; whole-pipeline families (about 200 lines, 10 digit settings, 4 separator "
+             "conventions). Tie: two-phase generator feeding every printed output back as a new line, on crate and model.",
+        design="DESIGN.md section 7 C15", technique="Coq proof (finite tables over regenerated word lists, composition of the C07/C08/C10/C13 theorems, computed pipeline families) + model/implementation correspondence on print/re-read pairs"),
 }
 
 PENDING_REASON = "check not built yet (work in progress; see DESIGN.md section 7)"
